@@ -15,8 +15,11 @@ import (
 	"com.tuntun.rangers/node/src/middleware"
 	"com.tuntun.rangers/node/src/middleware/types"
 	"com.tuntun.rangers/node/src/service"
+	"com.tuntun.rangers/node/src/storage/account"
 	"com.tuntun.rangers/node/src/storage/trie"
 )
+
+func newTrieIter(tr account.Trie) *trie.Iterator { return trie.NewIterator(tr.NodeIterator(nil)) }
 
 var e18 = new(big.Int).Exp(big.NewInt(10), big.NewInt(18), nil)
 
@@ -185,7 +188,7 @@ func takeView(root common.Hash, u *Universe, heights []uint64, maxH uint64) (*Vi
 	if err != nil {
 		return nil, err
 	}
-	ait := trie.NewIterator(tr.NodeIterator(nil))
+	ait := newTrieIter(tr)
 	var escrowAddrs []common.Address
 	for ait.Next() {
 		a := common.BytesToAddress(ait.Key)
